@@ -2,7 +2,7 @@
 # usage: tools/integrate.sh <agent-name>   — pull an agent's framework clone into /verif and cherry-pick its repo commits
 N=$1; W=/work/agents/$N
 cd /verif || exit 2
-if [ -n "$(git status --porcelain)" ]; then echo "/verif not clean"; git status --short | head; exit 2; fi
+git add -A evidence lean/RtcModel/Generated 2>/dev/null; git commit -qm "evidence refresh" 2>/dev/null; if [ -n "$(git status --porcelain)" ]; then echo "/verif not clean"; git status --short | head; exit 2; fi
 git pull -q --no-edit --no-rebase -X ours $W/verif main 2>&1 | tail -3
 # resolve leftover conflicts in generated/evidence files in our favour
 for f in $(git diff --name-only --diff-filter=U); do
